@@ -39,10 +39,50 @@ def make_cases(beh, kind, sizes_of, run, allq=0, zq=0, vmap="int", extra=None, k
             # a sixth of the files get their items through a text file and the real line reader / parser (bedGraph / BED text):
             # LF or CRLF line ends, last line terminated or not
             c["src"], c["eol"], c["final_nl"] = "text", ["lf", "crlf"][(k // 6) % 2], (k // 12) % 2
+        if k % 25 == 9:
+            c["swap"] = 1      # read back from "the same file as a big-endian machine would hold it" (see judge)
         if extra:
             c.update(extra(b, k, rng))
         cases.append(c)
     return cases
+
+
+def byte_swapped(run, obs, hang_timeout):
+    """cases flagged "swap": the file the real writer produced is re-laid out in the OTHER byte order by the independent codec (same
+    records, summary, zoom records, index fan-out: `bbi_codec.relayout`), and everything the check asks of the file is asked of that
+    one, through the same real readers; the answers replace the original ones and are judged by the same formulas"""
+    from pyverif import bbi_codec
+    todo = []
+    for i, o in enumerate(obs):
+        if not o.get("swap"):
+            continue
+        path = o.get("dump")
+        if o["obs"].get("result") == "ok" and path and os.path.exists(path):
+            try:
+                img = bbi_codec.decode(open(path, "rb").read(), bits=True)
+                if not img.get("error") and img.get("chromTree") and img.get("index"):
+                    spath = path + ".big"
+                    open(spath, "wb").write(bbi_codec.encode(bbi_codec.relayout(img, "big" if img["endian"] == "little" else "little")))
+                    todo.append((i, dict({k: v for k, v in o.items() if k not in ("obs", "dump", "case")}, path=spath)))
+            except Exception:      # a file the independent decoder cannot follow is C09's business, not a reason to stop here
+                pass
+        if o.pop("swapdump", None) and path:
+            try:
+                os.remove(path)
+            except OSError:
+                pass
+            o.pop("dump", None)
+    if not todo:
+        return
+    res = run_harness("readfile", [c for _, c in todo], os.path.join(run.wd, "swapped"), hang_timeout=hang_timeout)
+    for (i, c), r in zip(todo, res):
+        obs[i]["obs"] = r["obs"]
+        obs[i]["swapped"] = 1
+        try:
+            os.remove(c["path"])
+        except OSError:
+            pass
+    run.cov["files_read_back_in_the_other_byte_order"] = run.cov.get("files_read_back_in_the_other_byte_order", 0) + len(todo)
 
 
 def judge(run, pid, module, cases, nontrivial, describe, hang_timeout=20, known_tags=None, chunk=200000):
@@ -55,7 +95,12 @@ def judge(run, pid, module, cases, nontrivial, describe, hang_timeout=20, known_
         part = cases[lo:lo + chunk]
         if not part:
             break
+        for i, c in enumerate(part):
+            if c.get("swap") and not c.get("dump"):
+                c["dump"] = os.path.join(run.wd, "sw_%d_%d.bin" % (lo, i))
+                c["swapdump"] = 1
         obs = run_harness("bbi", part, run.wd, hang_timeout=hang_timeout)
+        byte_swapped(run, obs, hang_timeout)
         if SWEEP:
             with open(os.path.join(WORK, "notok_%s.ndjson" % pid), "a") as f:
                 for o in obs:
